@@ -771,6 +771,7 @@ def _c15_meta(ver, hastype):
         meta["api_version"] = ver
     if hastype:
         meta["type"] = "time-based" if hastype is True else hastype
+    meta["extra_methods"] = ["setup", "done", "foo"]
     return meta
 
 
@@ -810,6 +811,10 @@ def _c15_inproc(ver, explicit, kind, hastype, fail=None):
             try:
                 fac = world.start("S", sim_id="Sa")
                 res["type_seen"] = fac.type
+                # extra methods are a request kind of their own: every call reaches the simulator unchanged and returns its result
+                want = [["setup", [1], {}], ["done", [], {"x": 2}], ["foo", ["a", 3], {"y": None}]]
+                got = [fac.setup(1), fac.done(x=2), fac.foo("a", 3, y=None)]
+                res["extra_ok"] = got == want and [x for x in stubs.LOG if x[0] in ("setup", "done", "foo")] == want
                 fac.M()
                 if hastype == "event-based":
                     world.set_initial_event("Sa", 0)
@@ -879,7 +884,7 @@ def c15_rows():
                         rows.append({
                             "v": [int(x) for x in ver.split(".")] if ver is not None else [1], "hasv": ver is not None, "vs": ver or "",
                             "explicit": explicit, "kind": kind, "hastype": bool(hastype), "decl_type": "time-based", "out": r["out"], "msg": r["msg"], "fail": fail,
-                            "init_tr": True, "setup_done": True, "step_nargs": 0, "type_seen": r.get("type_seen", ""),
+                            "init_tr": True, "setup_done": True, "step_nargs": 0, "type_seen": r.get("type_seen", ""), "extra_ok": bool(r.get("extra_ok", True)),
                             "nargs_all": sorted({len(x[1]) for x in st_}),
                             "sameobs": steps(log) == steps(ref_fail[fail]["log"]), "failed_as_injected": r["out"] == "other" and "injected failure" in r["msg"],
                             "requests": [x[0] for x in log][:12],
@@ -903,6 +908,7 @@ def c15_rows():
                         "init_tr": init_tr, "setup_done": any(x[0] == "setup_done" for x in log),
                         "step_nargs": len(step[1]) if step else 0, "type_seen": r.get("type_seen", ""), "sameobs": bool(same),
                         "fail": "none", "nargs_all": sorted({len(x[1]) for x in log if x[0] == "step"}), "failed_as_injected": False,
+                        "extra_ok": bool(r.get("extra_ok", True)),
                         "requests": [x[0] for x in log][:12],
                     })
     return rows
@@ -921,7 +927,7 @@ def c15(tier, seed):
         "samples": [rows[3], next(r for r in rows if r["out"] == "ok" and r["vs"] == "2.1" and r["kind"] == "remote")],
         "evaluations": len(rows), "distinct_nontrivial": len(rows),
         "rule": f"api_version in {C15_VERSIONS} x explicit api_version (absent / equal / different) x (remote stub behind the shipped RemoteProxy over fake streams, "
-                "in-process stub with v3 signatures, in-process stub with old signatures) x meta without type / with type time-based, event-based, hybrid x (in-process) the stub's second step raising ValueError / RuntimeError / KeyError; each row = world.start + create + run(until=3) "
+                "in-process stub with v3 signatures, in-process stub with old signatures) x meta without type / with type time-based, event-based, hybrid x (in-process) three extra-method calls x the stub's second step raising ValueError / RuntimeError / KeyError; each row = world.start + create + run(until=3) "
                 "with the exact requests the stub received; compared with the run of a 3.0 stub",
         "exhaustive": True,
         "outcomes": dict(collections.Counter((r["kind"], r["out"]) .__str__() for r in rows)),
